@@ -284,15 +284,19 @@ def outputMode2 (s : St α) (xold x : α) (y : Array α) (ip : Option (Interp α
   let enforce : Option (St α) :=
     match s.firstStep with
     | some h0 =>
-      if ¬ s.firstOutputDone ∧ Num.abs (xold - x) > s.tol then
+      -- every genuine step takes part, however short (`xold != x`; only the initial callback has xold == x)
+      if ¬ s.firstOutputDone ∧ Num.eqb xold x = false then
         let direction := Num.signum (x - xold)
         let target := s.x0 + direction * Num.abs h0
         if direction * (x - target) ≥ -s.tol then
-          let s := match ip with
-            | some ipv => { s with t := s.t.push target, y := s.y.push (ipv.eval target), firstOutputDone := true }
-            | none => s
-          let s := if Num.abs (x - target) > s.tol then { s with t := s.t.push x, y := s.y.push y } else s
-          some s
+          if Num.abs (x - target) ≤ s.tol then
+            -- the step ends at the target (to the comparison tolerance): its end point is the first output
+            some { s with t := s.t.push x, y := s.y.push y, firstOutputDone := true }
+          else
+            let s := match ip with
+              | some ipv => { s with t := s.t.push target, y := s.y.push (ipv.eval target), firstOutputDone := true }
+              | none => s
+            some { s with t := s.t.push x, y := s.y.push y }
         else some s
       else none
     | none => none
